@@ -4,7 +4,8 @@
    adapter result and latency, every inbox of client frames and every timing. *)
 From Passage Require Import Lib.Bytes Codec.Desc Gen.PacketsGen Conn.Types Conn.Prog Conn.Sem1 Conn.Sem2
   Conn.Monitor Conn.MonitorProofs Conn.Monitor2Proofs Conn.Order Conn.OrderProofs Conn.Checks Conn.Walk_C10 Crypto.Cookie Conn.CookieProofs
-  Crypto.CookieJson Crypto.CookieJsonProofs.
+  Crypto.CookieJson Crypto.CookieJsonProofs
+  Conn.TraceLib Conn.C06Corollaries Conn.C02Corollaries Conn.C03Corollaries Conn.C10Corollaries.
 
 Theorem C10_walk : forall o cfg, safe (step_with (chk_c10 o cfg)) m_init (listen o cfg).
 Proof. exact listen_c10_safe. Qed.
@@ -93,6 +94,139 @@ Theorem C10_every_event_checked_bytes : forall o cfg e segs pre ev post,
     (internal_at (q st) ev = true \/ exists q', delta (q st) ev = Some q' /\ (chk_c10 o cfg) st ev = true).
 Proof. intros o cfg e segs pre ev post H. eapply accepted_event_checked; [apply c10_accepts2 | exact H]. Qed.
 
+(* ======================================================================
+   In plain terms: corollaries of the accepted monitor (Conn/C10Corollaries.v), each for
+   every frame-level run (M1) and, suffix _bytes, every byte-level run (M2).
+   ====================================================================== *)
+
+(* the vocabulary of the statements below (definitions unfolded) *)
+Theorem C10_defs : forall o,
+  (forall pre, no_session_presented o pre <->
+     exists i2 b2 k, nth_error (frames pre) 2 = Some (i2, b2) /\
+       (dec_of login_sb_CookieResponsePacket b2 = Some [VB k; VOpt None]
+        \/ exists pl, dec_of login_sb_CookieResponsePacket b2 = Some [VB k; VOpt (Some (VB pl))]
+                      /\ o_parse_session o pl = JOk None))
+  /\ (forall key pre, stored key pre <->
+        exists p k payload, In (TSend p [VB k; VB payload]) pre
+          /\ is_pkt p configuration_cb_StoreCookiePacket = true /\ k = key)
+  /\ (forall e, enc_flag e = match e with
+                             | TSend p [_; _; _; VBool b] => if is_pkt p login_cb_EncryptionRequestPacket then Some b else None
+                             | _ => None end)
+  /\ (forall e, auth_result e = match e with TRes (CAuth _ _ _ _ _ _ _ _) r => Some r | _ => None end)
+  /\ (forall e, select_result e = match e with TRes (CSelect _ _ _ _ _ _ _) r => Some r | _ => None end).
+Proof. intros o. repeat match goal with |- _ /\ _ => split end; intros; reflexivity. Qed.
+
+(* An authentication cookie is stored only with a secret configured and after the client was told to
+   authenticate; it directly follows a clock read and is exactly the 32-byte HMAC-SHA256 tag under the secret
+   (C10_verify_spec) followed by the serialised record of: that time, the client's address, the name, uuid and
+   properties of the authentication service's profile, the id of the target the strategy chose *)
+Theorem C10_issued_cookie_content : forall o cfg e ib pre p vs post,
+  untime (run1 o cfg e ib) = pre ++ TSend p vs :: post -> is_pkt p configuration_cb_StoreCookiePacket = true ->
+  key_of vs = auth_key_b ->
+  exists s n u ps t now pre1,
+    cf_secret cfg = Some s
+    /\ latest enc_flag pre = Some true
+    /\ latest auth_result pre = Some (RProfile n u ps)
+    /\ latest select_result pre = Some (RTarget (Some t))
+    /\ pre = pre1 ++ [TNow now]
+    /\ vs = [VB auth_key_b;
+             VB (sign (o_ser_auth o {| ac_ts := now; ac_addr := cf_client cfg; ac_name := n; ac_uuid := u;
+                                       ac_target := Some (t_id t); ac_props := ps; ac_extra := [] |}) s)].
+Proof. intros o cfg e ib. exact (auth_cookie_content o cfg _ (c10_accepts o cfg e ib)). Qed.
+Theorem C10_issued_cookie_content_bytes : forall o cfg e segs pre p vs post,
+  untime (run2 o cfg e segs) = pre ++ TSend p vs :: post -> is_pkt p configuration_cb_StoreCookiePacket = true ->
+  key_of vs = auth_key_b ->
+  exists s n u ps t now pre1,
+    cf_secret cfg = Some s
+    /\ latest enc_flag pre = Some true
+    /\ latest auth_result pre = Some (RProfile n u ps)
+    /\ latest select_result pre = Some (RTarget (Some t))
+    /\ pre = pre1 ++ [TNow now]
+    /\ vs = [VB auth_key_b;
+             VB (sign (o_ser_auth o {| ac_ts := now; ac_addr := cf_client cfg; ac_name := n; ac_uuid := u;
+                                       ac_target := Some (t_id t); ac_props := ps; ac_extra := [] |}) s)].
+Proof. intros o cfg e segs. exact (auth_cookie_content o cfg _ (c10_accepts2 o cfg e segs)). Qed.
+
+(* Without a configured secret no authentication cookie is ever stored *)
+Theorem C10_no_secret_no_cookie : forall o cfg e ib pre p vs post,
+  cf_secret cfg = None ->
+  untime (run1 o cfg e ib) = pre ++ TSend p vs :: post -> is_pkt p configuration_cb_StoreCookiePacket = true ->
+  key_of vs <> auth_key_b.
+Proof. intros o cfg e ib. exact (no_secret_no_auth_cookie o cfg _ (c10_accepts o cfg e ib)). Qed.
+Theorem C10_no_secret_no_cookie_bytes : forall o cfg e segs pre p vs post,
+  cf_secret cfg = None ->
+  untime (run2 o cfg e segs) = pre ++ TSend p vs :: post -> is_pkt p configuration_cb_StoreCookiePacket = true ->
+  key_of vs <> auth_key_b.
+Proof. intros o cfg e segs. exact (no_secret_no_auth_cookie o cfg _ (c10_accepts2 o cfg e segs)). Qed.
+
+(* nor when authentication was skipped (the client came with a valid cookie: flag false) *)
+Theorem C10_only_after_fresh_auth : forall o cfg e ib pre p vs post,
+  latest enc_flag pre = Some false ->
+  untime (run1 o cfg e ib) = pre ++ TSend p vs :: post -> is_pkt p configuration_cb_StoreCookiePacket = true ->
+  key_of vs <> auth_key_b.
+Proof. intros o cfg e ib. exact (no_auth_cookie_without_fresh_auth o cfg _ (c10_accepts o cfg e ib)). Qed.
+Theorem C10_only_after_fresh_auth_bytes : forall o cfg e segs pre p vs post,
+  latest enc_flag pre = Some false ->
+  untime (run2 o cfg e segs) = pre ++ TSend p vs :: post -> is_pkt p configuration_cb_StoreCookiePacket = true ->
+  key_of vs <> auth_key_b.
+Proof. intros o cfg e segs. exact (no_auth_cookie_without_fresh_auth o cfg _ (c10_accepts2 o cfg e segs)). Qed.
+
+(* A session cookie is stored only when the client presented none; it directly follows the draw of a fresh id
+   and records exactly that id and the handshake's host and port *)
+Theorem C10_session_cookie_content : forall o cfg e ib pre p vs post,
+  untime (run1 o cfg e ib) = pre ++ TSend p vs :: post -> is_pkt p configuration_cb_StoreCookiePacket = true ->
+  key_of vs = session_key_b ->
+  exists u pre1 proto host port st i0 b0,
+    no_session_presented o pre
+    /\ pre = pre1 ++ [TFresh RUuid u]
+    /\ nth_error (frames pre) 0 = Some (i0, b0)
+    /\ dec_of handshake_sb_HandshakePacket b0 = Some [VZ proto; VB host; VZ port; VZ st]
+    /\ vs = [VB session_key_b; VB (o_ser_session o {| sc_id := be_dec u; sc_host := host; sc_port := port |})].
+Proof. intros o cfg e ib. exact (session_cookie_content o cfg _ (c10_accepts o cfg e ib)). Qed.
+Theorem C10_session_cookie_content_bytes : forall o cfg e segs pre p vs post,
+  untime (run2 o cfg e segs) = pre ++ TSend p vs :: post -> is_pkt p configuration_cb_StoreCookiePacket = true ->
+  key_of vs = session_key_b ->
+  exists u pre1 proto host port st i0 b0,
+    no_session_presented o pre
+    /\ pre = pre1 ++ [TFresh RUuid u]
+    /\ nth_error (frames pre) 0 = Some (i0, b0)
+    /\ dec_of handshake_sb_HandshakePacket b0 = Some [VZ proto; VB host; VZ port; VZ st]
+    /\ vs = [VB session_key_b; VB (o_ser_session o {| sc_id := be_dec u; sc_host := host; sc_port := port |})].
+Proof. intros o cfg e segs. exact (session_cookie_content o cfg _ (c10_accepts2 o cfg e segs)). Qed.
+
+(* When the Transfer is sent, an authentication cookie has been stored exactly if the client was told to
+   authenticate and a secret is configured, and a session cookie exactly if the client presented none *)
+Theorem C10_cookies_iff : forall o cfg e ib pre p vs post,
+  untime (run1 o cfg e ib) = pre ++ TSend p vs :: post -> is_pkt p configuration_cb_TransferPacket = true ->
+  (stored auth_key_b pre <-> latest enc_flag pre = Some true /\ cf_secret cfg <> None)
+  /\ (stored session_key_b pre <-> no_session_presented o pre).
+Proof. intros o cfg e ib. exact (transfer_cookies_iff o cfg _ (c10_accepts o cfg e ib)). Qed.
+Theorem C10_cookies_iff_bytes : forall o cfg e segs pre p vs post,
+  untime (run2 o cfg e segs) = pre ++ TSend p vs :: post -> is_pkt p configuration_cb_TransferPacket = true ->
+  (stored auth_key_b pre <-> latest enc_flag pre = Some true /\ cf_secret cfg <> None)
+  /\ (stored session_key_b pre <-> no_session_presented o pre).
+Proof. intros o cfg e segs. exact (transfer_cookies_iff o cfg _ (c10_accepts2 o cfg e segs)). Qed.
+
+(* Cookies are given before the Transfer: no Store Cookie follows it *)
+Theorem C10_store_before_transfer : forall o cfg e ib pre p vs post p' vs',
+  untime (run1 o cfg e ib) = pre ++ TSend p vs :: post -> is_pkt p configuration_cb_StoreCookiePacket = true ->
+  In (TSend p' vs') pre -> is_pkt p' configuration_cb_TransferPacket = false.
+Proof. intros o cfg e ib. exact (store_before_transfer o cfg _ (c10_accepts o cfg e ib)). Qed.
+Theorem C10_store_before_transfer_bytes : forall o cfg e segs pre p vs post p' vs',
+  untime (run2 o cfg e segs) = pre ++ TSend p vs :: post -> is_pkt p configuration_cb_StoreCookiePacket = true ->
+  In (TSend p' vs') pre -> is_pkt p' configuration_cb_TransferPacket = false.
+Proof. intros o cfg e segs. exact (store_before_transfer o cfg _ (c10_accepts2 o cfg e segs)). Qed.
+
+(* Only these two cookies are ever stored *)
+Theorem C10_store_keys : forall o cfg e ib pre p vs post,
+  untime (run1 o cfg e ib) = pre ++ TSend p vs :: post -> is_pkt p configuration_cb_StoreCookiePacket = true ->
+  key_of vs = auth_key_b \/ key_of vs = session_key_b.
+Proof. intros o cfg e ib. exact (store_keys o cfg _ (c10_accepts o cfg e ib)). Qed.
+Theorem C10_store_keys_bytes : forall o cfg e segs pre p vs post,
+  untime (run2 o cfg e segs) = pre ++ TSend p vs :: post -> is_pkt p configuration_cb_StoreCookiePacket = true ->
+  key_of vs = auth_key_b \/ key_of vs = session_key_b.
+Proof. intros o cfg e segs. exact (store_keys o cfg _ (c10_accepts2 o cfg e segs)). Qed.
+
 Print Assumptions C10_walk.
 Print Assumptions C10_verify_sign.
 Print Assumptions C10_verify_spec.
@@ -105,3 +239,18 @@ Print Assumptions C10_accepts.
 Print Assumptions C10_every_event_checked.
 Print Assumptions C10_accepts_bytes.
 Print Assumptions C10_every_event_checked_bytes.
+Print Assumptions C10_defs.
+Print Assumptions C10_issued_cookie_content.
+Print Assumptions C10_issued_cookie_content_bytes.
+Print Assumptions C10_no_secret_no_cookie.
+Print Assumptions C10_no_secret_no_cookie_bytes.
+Print Assumptions C10_only_after_fresh_auth.
+Print Assumptions C10_only_after_fresh_auth_bytes.
+Print Assumptions C10_session_cookie_content.
+Print Assumptions C10_session_cookie_content_bytes.
+Print Assumptions C10_cookies_iff.
+Print Assumptions C10_cookies_iff_bytes.
+Print Assumptions C10_store_before_transfer.
+Print Assumptions C10_store_before_transfer_bytes.
+Print Assumptions C10_store_keys.
+Print Assumptions C10_store_keys_bytes.
